@@ -100,6 +100,69 @@ impl Witness {
     }
 }
 
+/// R3 (operational form): a listening station's list of active stations is complete once it
+/// has followed one token rotation to learn the members and a second one in which every pass
+/// confirmed what it had learnt ("two identical token rotations"), pass by pass.
+#[derive(Clone, Default)]
+struct LasModel {
+    /// 0 waiting for the first wrap-around, 1 discovery, 2 verification, 3 complete
+    phase: u8,
+    las: u128,
+}
+
+impl LasModel {
+    fn new(ts: u8) -> Self {
+        LasModel { phase: 0, las: 1u128 << (ts & 127) }
+    }
+    fn learn(&mut self, sa: u8, da: u8) {
+        for a in 0..128u8 {
+            let in_span = if da > sa { a >= sa && a < da } else { a >= sa || a < da };
+            if in_span {
+                self.las &= !(1u128 << a);
+            }
+        }
+        self.las |= 1u128 << sa;
+    }
+    fn confirms(&self, sa: u8, da: u8) -> bool {
+        let act = |a: u8| self.las >> a & 1 == 1;
+        if !act(sa) || !act(da) {
+            return false;
+        }
+        (0..128u8).all(|a| {
+            let between = if da > sa { a > sa && a < da } else { a > sa || a < da };
+            !(between && act(a))
+        })
+    }
+    fn pass(&mut self, sa: u8, da: u8) {
+        if sa > 125 || da > 125 {
+            return;
+        }
+        let wrap = da <= sa;
+        match self.phase {
+            0 => {
+                if wrap {
+                    self.phase = 1;
+                }
+            }
+            1 => {
+                self.learn(sa, da);
+                if wrap {
+                    self.phase = 2;
+                }
+            }
+            2 => {
+                if !self.confirms(sa, da) {
+                    self.learn(sa, da);
+                    self.phase = 1;
+                } else if wrap {
+                    self.phase = 3;
+                }
+            }
+            _ => self.learn(sa, da),
+        }
+    }
+}
+
 struct St {
     /// Own status requests in the current token visit.
     polls_in_visit: u32,
@@ -141,6 +204,7 @@ struct St {
     /// Since it last went online the station has witnessed two identical token rotations or has
     /// claimed the token: only then can it be a member of the ring ("not ready until ...").
     verified: bool,
+    las_model: LasModel,
 }
 
 pub struct GapMonitor {
@@ -187,6 +251,7 @@ impl GapMonitor {
                     last_pass_to_self: false,
                     last_valid_activity: 0,
                     verified: false,
+                    las_model: LasModel::default(),
                 })
                 .collect(),
             holder: None,
@@ -236,6 +301,7 @@ impl Monitor for GapMonitor {
             s.next_token_to = None;
             s.witness.reset();
             s.verified = false;
+            s.las_model = LasModel::new(_w.stations[st].cfg.addr);
             s.asked_by = None;
             s.must_reply_by = None;
             s.holding = false;
@@ -280,7 +346,8 @@ impl Monitor for GapMonitor {
             if let Frame::Token { da, sa } = frame {
                 if !p.pre.in_ring && *sa != ts {
                     self.st[i].witness.pass(*sa, *da);
-                    if self.st[i].witness.identical_tail() >= 2 {
+                    self.st[i].las_model.pass(*sa, *da);
+                    if self.st[i].las_model.phase == 3 {
                         self.st[i].verified = true;
                     }
                 }
